@@ -7,7 +7,7 @@ import common, l3, jsonx
 from checks.c01 import _get_by_pos
 
 PID = "C12"
-PAIRS = {"w": "base", "wall": "all", "wrepl": "repl", "wsel": "sel", "weager": "eager", "wenc": "enc"}
+PAIRS = {"w": "base", "wall": "all", "wrepl": "repl", "wsel": "sel", "weager": "eager", "wenc": "enc", "wrdot": "rdot"}
 
 
 def components(name, full_ns=False):
@@ -80,7 +80,7 @@ def judge(byc, res):
             o = _get_by_pos(rw, lf)
             if o is None or o[0] != 'str' or o == lf.node or not cfg.pseudo_re().match(o[1]):
                 continue
-            ic, oc = components(lf.node[1], full_ns=(lf.path[-1] == "ns")), o[1].split(".")
+            ic, oc = components(lf.node[1], full_ns=(lf.path[-1] == "ns")), cfg.pseudo_split(o[1])
             if len(ic) != len(oc):
                 l3.add_violation(res, "pseudonym does not keep the dotted structure at %s flags=%s" % (l3.abstract_path(lf.path), flags), rw, {"in": lf.node[1], "out": o[1]})
                 continue
@@ -170,7 +170,9 @@ def cfgs(tier):
           #  the specification decides that from the abstract namespace relation, so no drift comparison for these two)
           l3.Cfg("eager", eager=True, eager_ns="Dbq", nodrift=True), l3.Cfg("weager", eager=True, ns=True, eager_ns="Dbq", nodrift=True),
           # ... and together with --encrypt (values become ciphertexts; names still become pseudonyms, the same one everywhere)
-          l3.Cfg("enc", encrypt=True), l3.Cfg("wenc", encrypt=True, ns=True)]
+          l3.Cfg("enc", encrypt=True), l3.Cfg("wenc", encrypt=True, ns=True),
+          # ... and with a replacement text that itself contains the separator of namespaces
+          l3.Cfg("rdot", replacement="N.A"), l3.Cfg("wrdot", replacement="N.A", ns=True)]
     if tier == "thorough":
         cs += [l3.Cfg("repl", replacement="Ωx"), l3.Cfg("wrepl", replacement="Ωx", ns=True)]
     return cs
